@@ -209,6 +209,40 @@ func runC20(p *Prog, r *Report, tier string) {
 		}
 	}
 
+	// every message that arrives is stored: the add function has no exit that skips the insertion ("nothing to show" for
+	// some kind of message makes the window hold older messages than the most recent ones)
+	{
+		var ins []ssa.Instruction
+		eachInstr(add, func(in ssa.Instruction) {
+			if st, ok := in.(*ssa.Store); ok {
+				if gl, ok := st.Addr.(*ssa.Global); ok && gl.Name() == "flowRecords" {
+					if c, ok := st.Val.(*ssa.Call); ok {
+						if b, ok := c.Call.Value.(*ssa.Builtin); ok && b.Name() == "append" {
+							ins = append(ins, in)
+						}
+					}
+				}
+			}
+		})
+		nRet, okRet := 0, len(ins) > 0
+		eachInstr(add, func(in ssa.Instruction) {
+			if _, ok := in.(*ssa.Return); !ok || in.Block() == add.Recover {
+				return
+			}
+			nRet++
+			dom := false
+			for _, i := range ins {
+				if dominates(i, in) {
+					dom = true
+				}
+			}
+			if !dom {
+				okRet = false
+			}
+		})
+		r.Check(okRet && nRet > 0, "R-VALUE.insert", "cmd/collector.addIPFIXMessage: every return follows the insertion", p.pos(add.Pos()), "no exit before flowRecords = append(flowRecords, entry)",
+			"the add function can return without storing the message (an early return for some kind of message): the store is no longer 'the most recently received messages'", true)
+	}
 	// --- query
 	var qslice *ssa.Slice
 	eachInstr(q, func(in ssa.Instruction) {
@@ -428,7 +462,25 @@ func runC20(p *Prog, r *Report, tier string) {
 		}
 	})
 	if nParsed == 0 {
-		r.Undecided("R-GATE.refuse", "anchor: strconv.Atoi of the count parameter", p.pos(q.Pos()), "the count parameter is no longer parsed with strconv.Atoi: cannot see how invalid counts are refused")
+		// name the usual replacement precisely: ParseInt/ParseUint with base 0 auto-detects the base
+		diagnosed := false
+		eachInstr(q, func(in ssa.Instruction) {
+			c, ok := in.(*ssa.Call)
+			if !ok {
+				return
+			}
+			n := calleeName(&c.Call)
+			if n == "strconv.ParseInt" || n == "strconv.ParseUint" {
+				if b, ok := constInt(c.Call.Args[1]); ok && b != 10 {
+					diagnosed = true
+					r.Violation("R-GATE.refuse", "cmd/collector.flowRecordHandler: count parsed with base "+fmt.Sprint(b), p.instrPos(in),
+						"the count is parsed with base auto-detection / a non-decimal base: 010 is read as 8, and 0x5, 0b11, 0o7 are answered instead of refused")
+				}
+			}
+		})
+		if !diagnosed {
+			r.Undecided("R-GATE.refuse", "anchor: strconv.Atoi of the count parameter", p.pos(q.Pos()), "the count parameter is no longer parsed with strconv.Atoi: cannot see how invalid counts are refused")
+		}
 	}
 	// the stored entries are written verbatim (never used as a format string)
 	eachInstr(q, func(in ssa.Instruction) {
